@@ -22,7 +22,8 @@ MODEL_FILES = ["Model/C13_json.v", "Model/C13_config.v"]
 ALLOWED_AXIOMS: list[str] = []
 CASE_HEADER = ("From Coq Require Import String List.\nFrom LK Require Import Lib.StrDict Gen.C13_shape Model.C13_json Model.C13_config.\n"
                "Import ListNotations.\nOpen Scope string_scope.")
-SHARD = 40
+SHARD = 20
+SEARCH_CASES = 0     # the generic one-case-at-a-time search would start five interpreters per case; see search()
 TRUSTED = [
     "Coq 8.16.1 kernel + vm_compute (no native_compute); Print Assumptions of every theorem in Props/C13.v: closed under the global context",
     "shape extractor harness/translate/c13.py (declared field order of the five configuration classes, sorted wiring/aliases/type sets, "
@@ -969,12 +970,36 @@ def sample(case, obs):
                             "documents": [[l, e] for l, _, e in obs["docs"]]}}
 
 
+def search(rng, rep):
+    """Failing-input search used when an obligation is broken and the quick cases showed nothing: one more batch of
+    fresh cases (built and reloaded in five processes like the others), the oracle evaluated on each."""
+    cases = []
+    for k in range(240):
+        r = rng.fork(k)
+        cases.append(gen_std(r) if k % 3 == 2 else gen_graph(r, malformed=(k % 10 == 9)))
+    _PENDING[:] = cases
+    try:
+        _run_batch(cases)
+    except Exception:
+        return False
+    for c in cases:
+        obs = _CACHE.get(_key(c))
+        if obs is None:
+            continue
+        vs = oracle(c, obs)
+        if vs:
+            key, what = vs[0]
+            rep.violation(key, what, {"case": c, "observation": sample(c, obs)["observation"]})
+            return True
+    return False
+
+
 _SHRUNK: list = []
 
 
 def shrink(case, fails):
     # every reload costs fresh interpreter processes: shrink only the first few reported inputs
-    if case["kind"] != "graph" or len(_SHRUNK) >= 3:
+    if case["kind"] != "graph" or len(_SHRUNK) >= 2:
         return case
     _SHRUNK.append(1)
     c = dict(case)
@@ -983,7 +1008,7 @@ def shrink(case, fails):
         c = dict(case)
     keep_first = [o for o in c["ops"] if o["op"] == "input"]
     rest = [o for o in c["ops"] if o["op"] != "input"]
-    rest = common.shrink_list(rest, lambda xs: fails({**c, "ops": keep_first + xs, "ops2": None}), 8)
+    rest = common.shrink_list(rest, lambda xs: fails({**c, "ops": keep_first + xs, "ops2": None}), 6)
     if fails({**c, "ops": keep_first + rest, "ops2": None}):
         c = {**c, "ops": keep_first + rest, "ops2": None}
     return c
